@@ -47,6 +47,7 @@ type BrokerOpts struct {
 	Refuse       func(n int) byte                 // CONNACK return code for the n-th CONNECT (0 = accept)
 	SubCode      func(filter string, q byte) byte // SUBACK return code policy
 	Mute         bool                             // consume but never answer (withheld acknowledgements)
+	ReuseIDs     bool                             // a new message takes the lowest identifier no open transaction holds (reuse right after PUBACK/PUBCOMP)
 }
 
 type Broker struct {
@@ -308,6 +309,9 @@ func (b *Broker) Publish(clientID string, qos byte, retain bool, topic string, p
 	m := &OutMsg{QoS: qos, Topic: topic, Payload: payload, Retain: retain, Seq: len(sess.Out)}
 	if qos > 0 {
 		// next identifier not in use by an open transaction
+		if b.Opts.ReuseIDs {
+			sess.nextID = 0
+		}
 		for {
 			sess.nextID++
 			if sess.nextID == 0 {
@@ -324,6 +328,12 @@ func (b *Broker) Publish(clientID string, qos byte, retain bool, topic string, p
 			}
 		}
 		m.ID = sess.nextID
+		for _, o := range sess.Out {
+			if o.ID == m.ID && o.QoS > 0 {
+				b.W.Probe("identifier_reused")
+				break
+			}
+		}
 	}
 	sess.Out = append(sess.Out, m)
 	return m
